@@ -1451,6 +1451,13 @@ func matchType(pkg *Package, arg *internal.Elem, param types.Type, at any) error
 			}
 		}
 	}
+	if tsig, ok := arg.Type.(*types.Signature); ok && tsig.TypeParams() != nil {
+		if _, ok := param.Underlying().(*types.Signature); !ok {
+			// a generic function is not a value: only a function-typed target can instantiate it
+			code, pos, end := pkg.cb.loadExpr(arg.Src)
+			return pkg.cb.newCodeErrorf(pos, end, "cannot use generic function %s without instantiation", code)
+		}
+	}
 	switch t := param.(type) {
 	case *types.Named:
 		if t2, ok := arg.Type.(*types.Basic); ok {
